@@ -61,17 +61,21 @@ def build_object(m: Machine, uid, spec):
             P[:3, 3] = pos[i]
             poses.append(P)
         Rm = np.array([P[:3, :3] for P in poses], dtype=LD)
+        meta = copy.deepcopy(spec.get("meta"))
         if spec["stamped"]:
-            obj = T.PoseTrajectory3D(poses_se3=poses, timestamps=ts.copy())
+            obj = T.PoseTrajectory3D(poses_se3=poses, timestamps=ts.copy(),
+                                     meta=meta)
         else:
-            obj = T.PosePath3D(poses_se3=poses)
+            obj = T.PosePath3D(poses_se3=poses, meta=meta)
         m.probe_hit("built_from_se3")
     else:
         Rm = R
+        meta = copy.deepcopy(spec.get("meta"))
         if spec["stamped"]:
-            obj = T.PoseTrajectory3D(pos.copy(), quat.copy(), ts.copy())
+            obj = T.PoseTrajectory3D(pos.copy(), quat.copy(), ts.copy(),
+                                     meta=meta)
         else:
-            obj = T.PosePath3D(pos.copy(), quat.copy())
+            obj = T.PosePath3D(pos.copy(), quat.copy(), meta=meta)
         m.probe_hit("built_from_xyz_quat")
     model = TrajModel(Rm, pos, ts if spec["stamped"] else None)
     e = Entry(uid, obj, model, spec["stamped"], "ctor")
@@ -155,7 +159,8 @@ def execute_step(m: Machine, step, prop_of):
             ids = [i for i in step["ids"] if i < e.model.n]
             if not ids:
                 return None
-            e.obj.reduce_to_ids(ids)
+            e.obj.reduce_to_ids(np.array(ids, dtype=int)
+                                if step.get("ids_np") else ids)
             e.model = e.model.subset(ids)
             receivers.append(e)
         elif op == "downsample":
@@ -726,9 +731,13 @@ def gen_object_spec(rng, small=True):
         "t0": rng.choice([0.0, 1.6e9, 100.0]),
         "dt": rng.choice([0.1, 0.05, 1.0]),
     }
-    return {"ctor": rng.choice(["se3", "xyzquat"]),
+    spec = {"ctor": rng.choice(["se3", "xyzquat"]),
             "stamped": rng.random() < 0.7, "n": n,
             "data_seed": rng.getrandbits(32), "profile": profile}
+    if rng.random() < 0.5:
+        spec["meta"] = {"frame_id": rng.choice(["map", "odom"]),
+                        "tags": [rng.randrange(9), [rng.randrange(9)]]}
+    return spec
 
 
 def gen_T(rng, scale):
@@ -773,7 +782,8 @@ def gen_step(m: Machine, rng, uid):
         if op == "reduce_to_ids":
             k = rng.randint(1, n)
             ids = sorted(rng.sample(range(n), k))
-            return {"op": op, "uid": uid, "obj": e.uid, "ids": ids}
+            return {"op": op, "uid": uid, "obj": e.uid, "ids": ids,
+                    "ids_np": rng.random() < 0.5}
         if op == "downsample":
             return {"op": op, "uid": uid, "obj": e.uid,
                     "n": rng.choice([1, 2, 3, max(1, n // 2), n, n + 3])}
